@@ -51,6 +51,13 @@ def scratch_root():
     return base
 
 
+def shared_dir():
+    """Per-invocation directory shared by all workers (reference-run caches); removed by main()."""
+    d = os.path.join(scratch_root(), f"pyseqm-dst-shared-{os.environ.get('VERIF_RUN_ID', os.getpid())}")
+    os.makedirs(d, exist_ok=True)
+    return d
+
+
 def make_scratch(tag):
     d = os.path.join(scratch_root(), f"pyseqm-dst-{os.getpid()}-{tag}")
     shutil.rmtree(d, ignore_errors=True)
@@ -396,6 +403,14 @@ def main(check, argv=None):
     ap.add_argument("--dump", default=None, help="write all results to this JSON file (debugging)")
     args = ap.parse_args(argv)
 
+    os.environ["VERIF_RUN_ID"] = str(os.getpid())
+    try:
+        return _main(check, args)
+    finally:
+        shutil.rmtree(shared_dir(), ignore_errors=True)
+
+
+def _main(check, args):
     if args.replay:
         return replay(check, args.replay)
 
